@@ -16,6 +16,7 @@ pub mod c13;
 pub mod c14;
 pub mod c17;
 pub mod c18;
+pub mod c19;
 pub mod c20;
 pub mod collcheck;
 
@@ -37,6 +38,7 @@ pub fn dispatch(ctx: &Ctx, replay: Option<&str>) -> i32 {
         "C14" => c14::run(ctx, replay),
         "C17" => c17::run(ctx, replay),
         "C18" => c18::run(ctx, replay),
+        "C19" => c19::run(ctx, replay),
         "C20" => c20::run(ctx, replay),
         _ => {
             eprintln!("no check for property {}", ctx.prop);
